@@ -423,7 +423,7 @@ fn fixed_channel_case(reg: Reg, front: Front, ch: u32, rng: &mut Prng, col: &mut
 
 fn join_case(reg: Reg, front: Front, rng: &mut Prng, col: &mut Collector) {
     let creds = default_creds(rng);
-    let bias = if reg.fixed() && rng.chance(1, 2) { Some((rng.range(1, 8) as u8, rng.range(1, 3) as usize)) } else { None };
+    let bias = if reg.fixed() && rng.chance(1, 2) { Some((rng.range(1, 8) as u8, rng.range(1, 5) as usize)) } else { None };
     let opts = DevOpts { rng_seed: None, rng_start: rng.next_u32(), bias };
     let mut dev: Dev = Dev::new(front, reg, creds.clone(), &opts);
     let lead = *rng.pick(&[0u32, 50, 300]);
@@ -460,17 +460,27 @@ fn join_case(reg: Reg, front: Front, rng: &mut Prng, col: &mut Collector) {
         let after = dev.snapshot();
         check_windows(reg, front, true, &snap, &after, matches!(resp, Resp::JoinSuccess), &model, &evs, txd, lead, col, "join", json!({"attempt": a, "bias": bias}));
         if last && matches!(resp, Resp::JoinSuccess) {
-            // first data uplink: windows follow the accept's settings (already in the snapshot)
-            let snap = dev.snapshot();
-            let ev1 = dev.ev_len();
-            let r = dev.transact(Action::Send { data: &[7], port: 1, confirmed: false }, &Script::silent());
-            if let Resp::Panic(m, l) = &r {
-                col.violation(&format!("C10|panic|after-join|{}|{}", reg.name(), short_loc(l)), "device panicked in the first uplink after join", json!({"msg": m, "loc": l}));
-                return;
+            // first data uplinks: windows follow the accept's settings (already in the snapshot)
+            // and the data rate the frame is really sent at, which a still-active join bias may
+            // force away from the one the application configured
+            let drs = uplink_drs(reg);
+            let app_dr = if rng.chance(2, 3) { Some(*rng.pick(&drs)) } else { None };
+            if let Some(d) = app_dr {
+                dev.set_datarate(d);
             }
-            let evs = dev.evs_since(ev1);
-            let after = dev.snapshot();
-            check_windows(reg, front, false, &snap, &after, false, &model, &evs, txd, lead, col, "first-after-join", json!({"dl_settings": ja.dl_settings, "rx_delay": ja.rx_delay}));
+            for n in 0..2 {
+                dev.set_rng_next(rng.next_u32());
+                let snap = dev.snapshot();
+                let ev1 = dev.ev_len();
+                let r = dev.transact(Action::Send { data: &[7], port: 1, confirmed: false }, &Script::silent());
+                if let Resp::Panic(m, l) = &r {
+                    col.violation(&format!("C10|panic|after-join|{}|{}", reg.name(), short_loc(l)), "device panicked in the first uplink after join", json!({"msg": m, "loc": l}));
+                    return;
+                }
+                let evs = dev.evs_since(ev1);
+                let after = dev.snapshot();
+                check_windows(reg, front, false, &snap, &after, false, &model, &evs, txd, lead, col, "first-after-join", json!({"dl_settings": ja.dl_settings, "rx_delay": ja.rx_delay, "bias": bias, "app_dr": app_dr, "n": n}));
+            }
         }
     }
 }
